@@ -83,6 +83,8 @@ def open2DPointObject(fn: str) -> PointObject2D:
 def _parseNormalHeader(fn: str) -> Tuple[str, str, float, float]:
     with io.open(fn, "r", encoding="utf-8") as fd:
         data = fd.read()
+    if not data.endswith("\n"):
+        data += "\n"  # The last line need not end in a line break
 
     chunkedData = data.split("\n", 7)
 
@@ -106,6 +108,8 @@ def _getNextValue(data: str, start: int) -> Tuple[str, int]:
 def _parseShortHeader(fn: str) -> Tuple[str, str, float, float]:
     with io.open(fn, "r", encoding="utf-8") as fd:
         data = fd.read()
+    if not data.endswith("\n"):
+        data += "\n"  # The last line need not end in a line break
 
     chunkedData = data.split("\n", 6)
 
